@@ -18,6 +18,7 @@ import (
 	"strconv"
 	"strings"
 	"testing"
+	"time"
 
 	"github.com/AdguardTeam/AdGuardHome/internal/filtering"
 	"github.com/AdguardTeam/AdGuardHome/internal/filtering/rulelist"
@@ -607,6 +608,10 @@ func TestVerifC17Home(t *testing.T) {
 	out := vfOpen(t, "C17home")
 	defer out.Close()
 
+	// the configuration object the process started with, before anything here
+	// touches it (round 5: the object configuration files are decoded over)
+	pristine := c17cPristine()
+
 	base := filepath.Join(os.TempDir(), "v17h-"+vfHash(os.Getenv("VERIF_OUT"))[:6])
 	t.Cleanup(func() { _ = os.RemoveAll(base) })
 	tr := c17hMakeTree(t, filepath.Join(base, "t"))
@@ -699,6 +704,13 @@ func TestVerifC17Home(t *testing.T) {
 				[]string{"home-pre-path"})
 		}
 	}
+
+	// 3. (round 5) Where the patterns come from: configuration files of every
+	// YAML shape through the real parseConfig + setupDNSFilteringConf +
+	// filtering.New, config.write and a restart (zz_verif_C17conf_test.go).
+	t0 := time.Now()
+	c17cStream(t, out, tr, px.URL, pristine, vfNewRand(out.Seed).Fork(17))
+	out.Note("conf_stream_ms", time.Since(t0).Milliseconds())
 
 	// Generated: planted lists and operations over spellings, paths and URLs.
 	rnd := vfNewRand(out.Seed)
